@@ -55,10 +55,10 @@ func partialRemovalAllowed(rel string, size int64, before map[string]fileInfo) (
 }
 
 type c18Case struct {
-	Size    int      `json:"size"`
-	Hazards []string `json:"hazards"`
-	LockAhead bool   `json:"lock_ahead"`
-	Seed    int64    `json:"seed"`
+	Size      int      `json:"size"`
+	Hazards   []string `json:"hazards"`
+	LockAhead bool     `json:"lock_ahead"`
+	Seed      int64    `json:"seed"`
 }
 
 func runAftersun(cfgPath string) (string, int) {
